@@ -22,6 +22,7 @@ namespace dsplib {
 #ifdef DSPLIB_VERIF
 namespace verif {
 cache_cb_t on_cache_access = nullptr;
+yield_cb_t on_yield = nullptr;
 namespace {
 thread_local const LRUCache<int, std::shared_ptr<BaseFftPlanC>>* g_fft_cache = nullptr;
 thread_local const LRUCache<int, std::shared_ptr<BaseFftPlanR>>* g_rfft_cache = nullptr;
@@ -84,6 +85,9 @@ std::shared_ptr<BaseFftPlanC> create_fft_plan(int n) {
     thread_local LRUCache<int, std::shared_ptr<BaseFftPlanC>> cache{FFT_CACHE_SIZE};
 #ifdef DSPLIB_VERIF
     verif::g_fft_cache = &cache;
+#endif
+#ifdef DSPLIB_VERIF
+    verif::yield(20, &cache);
 #endif
     if (!cache.exists(n)) {
         auto plan = _get_fft_plan(n);
